@@ -370,8 +370,10 @@ func RandStateFor(r *kernel.Rand, p *channel.Params, s ValShape) *channel.State 
 	case s.App == AppBlob:
 		// the data length follows the shape's text length (long for long messages)
 		n := s.Text
-		if n > 65535 {
-			n = 65535
+		if n > 20000 {
+			// a message can carry two or three states; the protobuf frame holds
+			// at most 65535 bytes
+			n = 20000
 		}
 		d := BlobData(r.Bytes(n))
 		st.Data = &d
